@@ -55,6 +55,8 @@ func DetachClearSign(w io.Writer, signer *openpgp.Entity, message io.Reader, con
 	done := make(chan error)
 	go func() {
 		tail, err := tailClearSign(readPipe)
+		// unblock the writer if we stopped reading early
+		_ = readPipe.CloseWithError(err)
 		if err == nil {
 			_, err = w.Write(tail)
 		}
@@ -65,9 +67,16 @@ func DetachClearSign(w io.Writer, signer *openpgp.Entity, message io.Reader, con
 	return <-done
 }
 
+// lines of the document can be longer than the scanner's default limit
+func newLineScanner(r io.Reader) *bufio.Scanner {
+	s := bufio.NewScanner(r)
+	s.Buffer(make([]byte, 0, 64*1024), 1<<30)
+	return s
+}
+
 // Consume bytes from a Reader, returning only the signature block at the end
 func tailClearSign(r io.Reader) ([]byte, error) {
-	s := bufio.NewScanner(r)
+	s := newLineScanner(r)
 	out := bytes.NewBuffer(make([]byte, 0, 1024))
 	copying := false
 	for s.Scan() {
@@ -117,7 +126,7 @@ func MergeClearSign(w io.Writer, sig []byte, message io.Reader) error {
 
 // Copy bytes, stopping before the signature block at the end
 func headClearSign(r io.Reader, w io.Writer) error {
-	s := bufio.NewScanner(r)
+	s := newLineScanner(r)
 	for s.Scan() {
 		line := s.Bytes()
 		if bytes.Equal(line, sigHeader) {
